@@ -122,6 +122,26 @@ DecodeBytes(utf8, bs) == IF utf8 THEN Utf8DecodeFrom(bs, 1) ELSE bs
 WellFormedFor(utf8, bs) == /\ \A i \in 1..Len(bs) : bs[i] >= 32 /\ bs[i] # 127 /\ (utf8 \/ bs[i] < 128 \/ bs[i] >= 160)
                            /\ LET d == DecodeBytes(utf8, bs) IN \A j \in 1..Len(d) : d[j] # Replacement
 
+\* Malformed UTF-8 ("mal": a run of bytes at or above 0x80 that is not well-formed on its own - a sequence that is cut short by
+\* whatever follows it in the stream, a continuation byte that continues nothing).  The reference (xterm) shows U+FFFD per byte
+\* that is part of no well-formed sequence (DecodeBytes).  The lenient reading the contract also accepts (console dialect, Cands):
+\* the bytes of a sequence that is never completed show nothing, a continuation byte that continues nothing is shown as the 8-bit
+\* character it is.  Under neither reading is a character ever assembled from bytes that other bytes (ASCII, a control, an escape
+\* sequence: they are commands of their own here) separate: every command is decoded on its own.
+LeadLen(b) == IF b >= 192 /\ b < 224 THEN 2 ELSE IF b >= 224 /\ b < 240 THEN 3 ELSE IF b >= 240 /\ b < 248 THEN 4 ELSE 2
+RECURSIVE ContRun(_, _, _)
+ContRun(bs, i, max) == IF max = 0 \/ i > Len(bs) \/ ~IsCont(bs[i]) THEN 0 ELSE 1 + ContRun(bs, i + 1, max - 1)
+RECURSIVE LenientFrom(_, _)
+LenientFrom(bs, i) ==
+  IF i > Len(bs) THEN <<>> ELSE
+  LET b == bs[i] IN
+  IF b < 192 THEN <<b>> \o LenientFrom(bs, i + 1)
+  ELSE LET n == LeadLen(b)
+           m == ContRun(bs, i + 1, n - 1)
+           d == Utf8DecodeFrom(SubSeq(bs, i, i + m), 1)
+       IN (IF m = n - 1 /\ Len(d) = 1 /\ d[1] # Replacement THEN d ELSE <<>>) \o LenientFrom(bs, i + m + 1)
+LenientBytes(utf8, bs) == IF utf8 THEN LenientFrom(bs, 1) ELSE bs
+
 \* save / restore cursor: ESC 7 / ESC 8 (position, rendition, charsets), CSI s / CSI u (position)
 SavedAt(t) == <<[pen |-> t.pen, g0 |-> t.g0, g1 |-> t.g1, shift |-> t.shift]>>
 DECSC(t) == [t EXCEPT !.sc = [pos |-> <<t.cx, t.cy>>, at |-> SavedAt(t)]]
@@ -176,13 +196,14 @@ Ref(t, c) ==
     [] c.t = "scs"  -> Designate(t, c.a, IF c.b = 48 THEN "0" ELSE "B")     \* a = 0 / 1 (G0 / G1), b = final byte
     [] c.t = "mcs"  -> MCS(t, c.a = 1)            \* a = 1: ESC % G, a = 0: ESC % @
     [] c.t = "raw"  -> PutAll(t, DecodeBytes(Utf8On(t), c.ps), 1)     \* ps = the bytes as they are on the wire
+    [] c.t = "mal"  -> PutAll(t, DecodeBytes(Utf8On(t), c.ps), 1)     \* the same, ps not well-formed: U+FFFD per stray byte
     [] OTHER        -> t                          \* queries (cpr, dsr, da) change nothing
 
 \* the subset the property lists (Listed) and what a VT100 documents next to it: text runs, IND / NEL, CHA / VPA / CNL / CPL,
 \* ECH, tab stops, origin / insert / autowrap / new-line mode, save and restore cursor, charsets (Ext); queries (Query)
 Listed == {"put", "cr", "lf", "ri", "bs", "cup", "cuu", "cud", "cuf", "cub", "el", "ed", "ich", "dch", "il", "dl", "stbm", "sgr"}
 Ext    == {"txt", "ind", "nel", "cha", "vpa", "cnl", "cpl", "ech", "ht", "hts", "tbc", "decom", "irm", "decawm", "lnm",
-           "decsc", "decrc", "scosc", "scorc", "so", "si", "scs", "mcs", "raw"}
+           "decsc", "decrc", "scosc", "scorc", "so", "si", "scs", "mcs", "raw", "mal"}
 Query  == {"cpr", "dsr", "da"}
 
 (* ---------------- console dialect (tolerated, DIVERGENCE only) ---------------- *)
@@ -209,6 +230,7 @@ Dialect(t, c) ==
     [] c.t = "ht"   -> <<[HT(t) EXCEPT !.pend = FALSE]>>            \* a tab clears the last-column flag
     [] c.t = "decrc" -> IF t.sc.pos = <<>> THEN <<t>> ELSE <<>>     \* nothing saved: nothing restored
     [] c.t = "scs"  -> IF t.mcs THEN <<t>> ELSE <<>>                \* G0 / G1 are not designated while UTF-8 is selected
+    [] c.t = "mal"  -> IF Utf8On(t) THEN <<PutAll(t, LenientBytes(TRUE, c.ps), 1)>> ELSE <<>>   \* the lenient reading of malformed UTF-8
     [] OTHER        -> <<>>
 Cands(t, c, strict) == IF strict THEN <<Ref(t, c)>> ELSE <<Ref(t, c)>> \o Dialect(t, c)
 
@@ -261,9 +283,14 @@ UnMask(m) == {f \in FlagCodes : Bit(m, CASE f = 1 -> 1 [] f = 3 -> 2 [] f = 4 ->
 Pal(col) == IF col >= 1000 /\ col < 1016 THEN col - 1000 ELSE col
 NormFg(fg, bold) == LET p == Pal(fg) IN IF bold /\ p >= 0 /\ p <= 7 THEN p + 8 ELSE p
 
+\* the bold => bright reading belongs to the eight colours selected by SGR 30-37: a palette index selected by SGR 38;5;n that the
+\* emulator also keeps as a palette index is that index and no other, bold or not (index 12 in bold is not index 4 in bold)
+Indexed(col) == col >= 1000 /\ col < 1256
+FgEq(mfg, mbold, ofg, obold) == IF Indexed(mfg) /\ Indexed(ofg) THEN mfg = ofg ELSE NormFg(mfg, mbold) = NormFg(ofg, obold)
+
 TextEq(m, o) == m.c = o[1] /\ m.p = 0
 ColourEq(m, o) == /\ Pal(m.bg) = Pal(o[3])
-                  /\ (m.c # 32 => NormFg(m.fg, 1 \in m.fl) = NormFg(o[2], Bit(o[4], 1)))
+                  /\ (m.c # 32 => FgEq(m.fg, 1 \in m.fl, o[2], Bit(o[4], 1)))
 FlagsEq(m, o) == IF m.c = 32 THEN (m.fl \cap {4, 7, 9}) = (UnMask(o[4]) \cap {4, 7, 9}) ELSE m.fl = UnMask(o[4])
 CellEq(m, o, strict) == TextEq(m, o) /\ ColourEq(m, o) /\ (strict => FlagsEq(m, o))
 
@@ -273,7 +300,7 @@ GridTextEq(t, g) == \A y \in 1..t.h : \A x \in 1..t.w : TextEq(t.grid[y][x], g[y
 GridEq(t, g, strict) == \A y \in 1..t.h : RowEq(t.grid[y], g[y], strict)
 CursorEq(t, cur) == t.cx = cur[1] /\ t.cy = cur[2]
 PenEq(t, pen, strict) == /\ Pal(t.pen.bg) = Pal(pen[2])
-                         /\ NormFg(t.pen.fg, 1 \in t.pen.fl) = NormFg(pen[1], Bit(pen[3], 1))
+                         /\ FgEq(t.pen.fg, 1 \in t.pen.fl, pen[1], Bit(pen[3], 1))
                          /\ (strict => t.pen.fl = UnMask(pen[3]))
 
 \* the scrolling region is only visible through later scrolling; comparing it at once also tells the xterm and the
@@ -338,6 +365,19 @@ Adopt(t, o, w, h, pend) ==
             !.cx = o.cur[1], !.cy = o.cur[2], !.pend = (pend /\ o.cur[1] = w - 1),
             !.top = 0, !.bot = h - 1, !.sb = [i \in 1..Len(o.sb) |-> RowOf(o.sb[i])],
             !.tabs = {o.tabs[i] : i \in 1..Len(o.tabs)}]
+
+\* "Lines scrolled off the top are kept, in order" x "any interleaving of resizes": scrollback and screen read from top to bottom
+\* are the same lines before and after a resize - a row is cut or padded with blanks to the new width, blank rows may be added
+\* below the last one, nothing else moves.  In particular the rows a taller screen shows above the old ones are the most recent
+\* lines of the scrollback in their original order.  (psb, pg: scrollback and screen before the resize, sb, g: after it.)
+BlankCell(o) == o[1] = 32
+RowKept(old, new) == LET n == Min2(Len(old), Len(new))
+                     IN (\A x \in 1..n : new[x] = old[x]) /\ (\A x \in (n + 1)..Len(new) : BlankCell(new[x]))
+ResizeKeepsLines(psb, pg, sb, g) ==
+  LET pre == psb \o pg   post == sb \o g
+  IN /\ Len(post) >= Len(pre)
+     /\ \A i \in 1..Len(pre) : RowKept(pre[i], post[i])
+     /\ \A i \in (Len(pre) + 1)..Len(post) : \A x \in 1..Len(post[i]) : BlankCell(post[i][x])
 
 \* the view scrolled back by k lines shows the last h rows of (scrollback ++ screen) that end k lines above the bottom
 ViewOf(sb, g, k0) ==
